@@ -184,6 +184,8 @@ def window(rng, max_lines):
 
 def base_text(rng, max_lines=40):
     r = rng.random()
+    if r < 0.03:
+        return outlier_text(rng)
     if r < 0.35:
         return rng.choice(SNIPPETS)
     if r < 0.55:
@@ -563,3 +565,34 @@ def _elementary_nl(lines, i, kind, pad, nl):
         k = len(body) // 2
         lines[i:i + 1] = [body[:k] + nl, body[k:] + nl]
     return ''.join(lines)
+
+
+def outlier_text(rng):
+    """Legitimate but unusual sizes: very long lines, deep nesting, many lines, huge literals."""
+    k = rng.randrange(7)
+    if k == 0:
+        n = rng.choice([300, 1000, 5000])
+        return "x = '" + 'a' * n + "'\ny = 1\n" + 'z = ' + ' + '.join('v%d' % i for i in range(rng.choice([50, 400]))) + '\n'
+    if k == 1:
+        d = rng.choice([12, 25, 60])
+        out = []
+        for i in range(d):
+            out.append('    ' * i + rng.choice(['if x%d:', 'for i%d in y:', 'while z%d:', 'with w%d:', 'def f%d():', 'class C%d:']) % i + '\n')
+        out.append('    ' * d + 'pass\n')
+        for i in range(d - 1, -1, -rng.choice([1, 3, 7])):
+            out.append('    ' * i + 'x%d = %d\n' % (i, i))
+        return ''.join(out)
+    if k == 2:
+        d = rng.choice([20, 60, 150])
+        return 'x = ' + '(' * d + '1' + ')' * d + '\ny = ' + '[' * d + ']' * d + '\nz = 2\n'
+    if k == 3:
+        n = rng.choice([300, 1000, 2500])
+        return ''.join('v%d = %d\n' % (i, i) if i % 17 else 'def f%d():\n    return %d\n' % (i, i) for i in range(n))
+    if k == 4:
+        n = rng.choice([100, 1000])
+        return 'data = [\n' + ''.join('    %d,\n' % i for i in range(n)) + ']\nprint(data)\n'
+    if k == 5:
+        n = rng.choice([50, 300])
+        return 's = """' + ''.join('line %d\n' % i for i in range(n)) + '"""\nt = f"""' + ''.join('{a%d}\n' % i for i in range(n // 5)) + '"""\nu = 1\n'
+    n = rng.choice([40, 200])
+    return ''.join('@dec%d\n' % i for i in range(n)) + 'def f():\n' + ''.join('    # comment %d\n' % i for i in range(n)) + '    pass\n'
